@@ -1,4 +1,5 @@
 """HTTP parser family: C06, C07, C08."""
+from . import srcgen
 import os
 
 from . import core
@@ -40,6 +41,11 @@ C07_RUN = {"harness": "hhttp7", "driver": "httpdrv", "fields": ["render", "err",
 ENGINE_RUN = {"harness": "hhttpe", "driver": "httpdrv", "fields": ["handled", "closed", "onclose"],
               "quick": {"n": 12, "shards": 3, "timeout": 600}, "thorough": {"n": 90, "shards": 8, "timeout": 1800}}
 
+# BodyReader (nbhttp/body.go) against Model/HttpBody.lean: programs of append / Read / Close / RawBodyBuffers / pool
+# release-and-reuse with a tracking allocator whose capacities are scripted; whole result lines are compared
+BODY_RUN = {"harness": "hbody", "driver": "httpdrv", "fields": None, "corpus": "httpbody",
+            "quick": {"n": 400, "shards": 4}, "thorough": {"n": 6000, "shards": 16}}
+
 PROPS = {
     "C07": {
         "manifest": {
@@ -57,9 +63,9 @@ PROPS = {
                     "neighbours of the agreed domain are classified and counted, not judged",
             "technique": "Lean 4 proof (compositional, per grammar production, on the byte-at-a-time spec; lifted to the Go-shaped loop in "
                          "any segmentation by the C06 refinement) + three-way differential correspondence"},
-        "lean": ["NbioVerif.Properties.C07", "NbioVerif.Lemmas.HttpTables"], "drivers": ["httpdrv"], "harness": ["hhttp", "hhttp7"],
-        "facts": [http_tables],
-        "runs": [C07_RUN],
+        "lean": ["NbioVerif.Properties.C07", "NbioVerif.Lemmas.HttpTables", srcgen.BRIDGE_HTTP], "drivers": ["httpdrv"], "harness": ["hhttp", "hhttp7", "hbody"],
+        "facts": [http_tables, srcgen.src_facts],
+        "runs": [C07_RUN, BODY_RUN],
         "oracles": ["c07-"],
         "rule": "case = 1..3 pipelined messages drawn from the Msg grammar (or one neighbour of the agreed domain) + a segmentation; distinct "
                 "by hash of (role, method/version, header-count class, framing headers and their spellings, framing kind, chunk count and "
@@ -76,8 +82,8 @@ PROPS = {
                     "generated (message, segmentation) pairs, and a whole-vs-segmented oracle runs on the implementation alone",
             "note": "model fidelity is sampled (differential run on every check); ReadLimit entry test excluded by hypothesis",
             "technique": "Lean 4 proof (refinement of the Go-shaped index loop to a byte-at-a-time spec) + differential correspondence"},
-        "lean": ["NbioVerif.Properties.C06", "NbioVerif.Lemmas.HttpTables"], "drivers": ["httpdrv"], "harness": ["hhttp"],
-        "facts": [http_tables],
+        "lean": ["NbioVerif.Properties.C06", "NbioVerif.Lemmas.HttpTables", srcgen.BRIDGE_HTTP], "drivers": ["httpdrv"], "harness": ["hhttp"],
+        "facts": [http_tables, srcgen.src_facts],
         "runs": [HTTP_RUN],
         "oracles": ["c06-"],
         "rule": "case = (message sequence incl. mutated neighbours, segmentation); distinct by hash of (config class, parser-state "
@@ -92,10 +98,10 @@ PROPS = {
                     "<= max(ReadLimit, one read); differential correspondence plus panic/bound/after-error oracles on arbitrary and mutated bytes",
             "note": "model fidelity sampled; panics observed through the parser's recover log line; engine glue after an error modelled as CloseAndClean",
             "technique": "Lean 4 proof (invariants by induction over the input) + differential correspondence"},
-        "lean": ["NbioVerif.Properties.C08", "NbioVerif.Lemmas.HttpTables"], "drivers": ["httpdrv"], "harness": ["hhttp", "hhttpe"],
-        "facts": [http_tables],
+        "lean": ["NbioVerif.Properties.C08", "NbioVerif.Lemmas.HttpTables", srcgen.BRIDGE_HTTP], "drivers": ["httpdrv"], "harness": ["hhttp", "hhttpe", "hbody"],
+        "facts": [http_tables, srcgen.src_facts],
         "cs": HTTP_CS,
-        "runs": [HTTP_RUN, ENGINE_RUN],
+        "runs": [HTTP_RUN, ENGINE_RUN, BODY_RUN],
         "oracles": ["c08-"],
         "rule": "same stream as C06 (random bytes, grammar messages and six+ mutation operators, limits drawn around the sizes); "
                 "non-trivial iff bytes were retained across calls or an error was returned",
